@@ -69,8 +69,15 @@ def totality(rep, c, fn, nmax, cases_for_replay):
     body = c.body(key)
     stats = {'paths': 0, 'ok': 0, 'err': 0, 'panic': 0}
     first_panic = None
-    for n in range(0, nmax + 1):
-        xs, dom = sym_bytes('b', n)
+    # every byte string of length 0..nmax, then one longer *shaped* family: one-byte type, then the widest length form
+    # (0xff + 8 bytes), the only way to declare a length above 2^32 / isize::MAX
+    for n in list(range(0, nmax + 1)) + (['wide'] if nmax < 10 else []):
+        if n == 'wide':
+            n = 10
+            xs, dom = sym_bytes('b', n)
+            dom = dom + [sym.lt(xs[0], 0xfd), sym.eq(xs[1], 0xff)]
+        else:
+            xs, dom = sym_bytes('b', n)
         def mk(ch):
             m = c.machine(ch)
             m.pc.extend(dom)
